@@ -387,6 +387,21 @@ func flattenSpecs(specs *[]srcInput, filename string, retrieved *retrievedList) 
 	}
 }
 
+// localReadName returns the name under which a file is requested from the reader. Remote files are spelled with a
+// leading "//"; every other name is local to the project root. The reader, however, also takes a bare
+// "host.tld/owner/repo/path" for a remote resource, so a local file below a directory whose name contains a dot
+// (e.g. "v1.2/api/defs/types.sysl") would be fetched from the network instead of being read. Such a name is
+// requested as "./name", which every filesystem resolves to the same file.
+func localReadName(filename string) string {
+	if syslutil.IsRemoteImport(filename) || filename == "" || filename[0] == '.' || filename[0] == '/' {
+		return filename
+	}
+	if (&remotefs.RemoteFs{}).IsRemote(filename) {
+		return "./" + filename
+	}
+	return filename
+}
+
 // collectSpecs retrieves the contents for a sourceFile. It then parses the source to find all imports and recursively
 // (and in parallel) retrieves those as well. All the results are placed into the retrievedList.
 func (p *Parser) collectSpecs(
@@ -450,7 +465,7 @@ func (p *Parser) collectSpecs(
 	retrieved.l[filenameIndex] = fi
 	retrieved.mutex.Unlock()
 
-	content, hash, branch, err := reader.ReadHashBranch(ctx, source.filename)
+	content, hash, branch, err := reader.ReadHashBranch(ctx, localReadName(source.filename))
 	if err != nil {
 		return syslutil.Exitf(ImportError, fmt.Sprintf(
 			"error reading %#v: \n%v\n", source.filename, err,
